@@ -869,3 +869,38 @@ def c04_end_clustering(tier, rng):
                 {"obligation": "C04.end_clustering", "inputs": {"seed": base + k}, "observed": p[:3],
                  "required": "clusters partition the read ends; distinct clusters more than apa_delta apart", "replay_call": "contracts.c_novel:replay_end_clustering"}]}
     return {"cases": n * 60, "bound": "%d x 60 random position tables, apa_delta in {1,5,10,50}" % n, "violations": [], "samples": [{"seed": base}]}
+
+
+# ---- which full-length paths are turned into exons at all: never one with two overlapping or touching neighbouring introns ---------------------------
+def _path_guard_extract(fdef):
+    """construct_fl_isoforms: the statements of the loop body from `intron_path = path[1:-1]` up to (not including) the assignment of
+    transcript_range, as a function of `path` returning whether the path goes on to get_exons: every `continue` becomes `return False`, the
+    end of the slice `return True`; everything else of the method is dropped"""
+    import copy
+    loop = [n for n in ast.walk(fdef) if isinstance(n, ast.For) and isinstance(n.target, ast.Name) and n.target.id == "path"]
+    if not loop:
+        raise front.Missing("loop over FL paths not found in construct_fl_isoforms")
+    body = loop[0].body
+    start = [i for i, s_ in enumerate(body) if isinstance(s_, ast.Assign) and ast.unparse(s_.targets[0]) == "intron_path"]
+    stop = [i for i, s_ in enumerate(body) if isinstance(s_, ast.Assign) and ast.unparse(s_.targets[0]) == "transcript_range"]
+    if not start or not stop or stop[0] <= start[0]:
+        raise front.Missing("intron_path / transcript_range assignments not found in construct_fl_isoforms")
+    keep = [copy.deepcopy(s_) for s_ in body[start[0]:stop[0]]]
+
+    class Cont(ast.NodeTransformer):
+        def visit_Continue(self, node):
+            return ast.copy_location(ast.Return(value=ast.Constant(value=False)), node)
+    keep = [Cont().visit(k) for k in keep]
+    args = ast.arguments(posonlyargs=[], args=[ast.arg(arg=a) for a in ("self", "path")], kwonlyargs=[], kw_defaults=[], defaults=[])
+    return ast.fix_missing_locations(ast.FunctionDef(name="construct_fl_isoforms", args=args, body=keep + [ast.Return(value=ast.Constant(value=True))],
+                                                     decorator_list=[], lineno=fdef.lineno, col_offset=0))
+
+
+contract(G + "GraphBasedModelConstructor.construct_fl_isoforms#path_guard", {"self": "rec:CtorStrand", "path": IVS},
+         returns="bool", props=["C04", "C03"], extract=_path_guard_extract, native=False,
+         locals={"intron_path": IVS},
+         requires=["len(path) >= 2"],
+         # a path goes on to get_exons exactly when it has an intron and every two neighbouring introns leave room for an exon between
+         # them - the precondition under which get_exons returns the exons between the introns (its contract) and no intron is fused
+         ensures=["result == (len(path) > 2 and all(path[i + 1][1] + 1 < path[i + 2][0] for i in range(len(path) - 3)))"],
+         canary="not result")
